@@ -151,7 +151,7 @@ def points_binary(ctx, fn, bits, nsamp):
 def exact_table(points, bits):
     """points: list of (fn, x[, y]) -> {point: (k, s, e, m, yl)} via tools/gen_ref.py (mpmath), cached by content hash"""
     lines = ["%s %d %x%s" % (p[0], bits, p[1], " %x" % p[2] if len(p) > 2 else "") for p in points]
-    h = hashlib.sha256("\n".join(lines).encode()).hexdigest()[:20]
+    h = hashlib.sha256(("\n".join(lines) + open(os.path.join(vf.VERIF, "tools", "gen_ref.py")).read()).encode()).hexdigest()[:20]
     cdir = os.path.join(vf.BUILD, "ref")
     os.makedirs(cdir, exist_ok=True)
     cpath = os.path.join(cdir, "t%d_%s.json" % (bits, h))
@@ -219,9 +219,9 @@ def run(ctx, prop, t, bits, nb):
         # selector sweep (lib/sweep.py): float32 - every stride-th bit pattern of the whole format; float64 - a seeded sample of rows of
         # neighbouring doubles over the function's domain; ranked against libm in the next wider format, the worst row of every binade
         # is appended to the plan (in the very row composition in which it was observed) and judged by TLC like every other row
-        archs = ctx.q(["sse2", "sse4_1", "fma3<avx2>", "avx512f"], ["sse2", "sse4_1", "avx2", "fma3<avx2>", "avx512f", "avx512bw"])
-        stride = int(os.environ.get("VERIF_SWEEP_STRIDE", "0")) or ctx.q(128, 4)
-        nrows = int(os.environ.get("VERIF_SWEEP_ROWS", "0")) or ctx.q(30000, 1500000)
+        archs = ctx.q(["sse2", "sse4_1", "fma3<avx2>", "avx512f"], ["sse2", "sse4_1", "avx2", "fma3<avx2>", "avx512f"])
+        stride = int(os.environ.get("VERIF_SWEEP_STRIDE", "0")) or ctx.q(128, 8)          # VERIF_SWEEP_STRIDE=1: every float32 argument (about 7 min per architecture)
+        nrows = int(os.environ.get("VERIF_SWEEP_ROWS", "0")) or ctx.q(30000, 600000)
         jobs = []
         for fn in UNARY:
             fi = 0 if bits == 32 else 1
@@ -233,7 +233,7 @@ def run(ctx, prop, t, bits, nb):
                     jobs.append(sweep.job("m1", fn, t, arch, mode, fn, stride, ctx.seed * 31 + ai * 7 + len(fn), 0x00800000, 0x7F7FFFFF, signs))
                 else:
                     jobs.append(sweep.job("m1", fn, t, arch, mode, fn, nrows, ctx.seed * 31 + ai, fpgen.f2b(max(lo, 2.3e-308), 64), fpgen.f2b(hi, 64), signs))
-        srows, _info = sweep.run(ctx, "math", jobs, prop.lower() + "sel", keep=ctx.q(12, 300))
+        srows, _info = sweep.run(ctx, "math", jobs, prop.lower() + "sel", keep=ctx.q(12, 64))
         for r in srows:
             fn = r["op"]
             chunk = [r["lanes"][i % len(r["lanes"])] for i in range(L)]
